@@ -37,12 +37,14 @@ struct Case {
         uint64_t seed = 0;
         int prefill = 0x5a; // fill pattern of manager / context memory before init
         std::vector<Cmd> cmds;
+        int volume = 0; // C06 only: a long-lived manager - this many segments of almost 2^32 bytes through ONE context (other lanes idle)
 };
 
 static inline J to_json(const Case &c)
 {
         J j = J::obj();
         j.set("fam", c.fam).set("nctx", c.nctx).set("seed", (unsigned long long) c.seed).set("prefill", c.prefill);
+        if (c.volume) j.set("volume", c.volume);
         J a = J::arr();
         for (auto &m : c.cmds) {
                 J o = J::obj();
@@ -66,6 +68,7 @@ static inline Case from_json(const J &j)
         c.nctx = (int) j.num("nctx", 1);
         c.seed = j.unum("seed", 0);
         c.prefill = (int) j.num("prefill", 0x5a);
+        c.volume = (int) j.num("volume", 0);
         for (auto &o : j.at("cmds").a) {
                 Cmd m;
                 std::string op = o.at("op").s;
